@@ -12,8 +12,10 @@ use std::sync::{Arc, Mutex};
 use std::time::{Duration, Instant};
 
 #[derive(Clone, Copy, PartialEq, Debug)]
-enum B { Refused, AccClosed, ClosedIdle, Silent, Malformed, AppError, Success }
-fn parse_b(c: char) -> B { match c { 'R' => B::Refused, 'A' => B::AccClosed, 'I' => B::ClosedIdle, 'S' => B::Silent, 'M' => B::Malformed, 'E' => B::AppError, _ => B::Success } }
+enum B { Refused, AccClosed, ClosedIdle, Silent, Malformed, AppError, Success,
+         /// harness-only: a success frame (ec 0, JSON) whose body stops mid-document; the model sees an application-level error reply
+         BadJson }
+fn parse_b(c: char) -> B { match c { 'R' => B::Refused, 'A' => B::AccClosed, 'I' => B::ClosedIdle, 'S' => B::Silent, 'M' => B::Malformed, 'E' => B::AppError, 'J' => B::BadJson, _ => B::Success } }
 
 /// A scripted node on a fixed loopback port.
 struct Node {
@@ -75,8 +77,8 @@ impl Node {
                 B::AccClosed | B::Refused => { let _ = s.shutdown(Shutdown::Both); return; }
                 B::Silent => { /* never answer; keep reading until the client goes away */ }
                 B::Malformed => { let mut g = vec![0u8; 48]; g[8] = 0xAD; g[9] = 0xDE; let _ = s.write_all(&g); }
-                B::AppError | B::Success | B::ClosedIdle => {
-                    let (ec, fmt, body): (u32, u16, Vec<u8>) = if mode == B::AppError { ([4096u32, 7, 8, 9, 6][(self.requests.load(Ordering::SeqCst) % 5) as usize], 3, b"application says no".to_vec()) } else { (0, 2, b"{\"ok\":true}".to_vec()) };
+                B::AppError | B::Success | B::ClosedIdle | B::BadJson => {
+                    let (ec, fmt, body): (u32, u16, Vec<u8>) = if mode == B::BadJson { (0, 2, if self.requests.load(Ordering::SeqCst) % 2 == 0 { b"{\"ok\":tr".to_vec() } else { vec![] }) } else if mode == B::AppError { ([4096u32, 7, 8, 9, 6][(self.requests.load(Ordering::SeqCst) % 5) as usize], 3, b"application says no".to_vec()) } else { (0, 2, b"{\"ok\":true}".to_vec()) };
                     let mut f = Vec::new();
                     f.extend_from_slice(&((48 + query.len() + body.len()) as u64).to_le_bytes());
                     f.extend_from_slice(&0x1507u16.to_le_bytes()); f.push(1); f.push(0); f.extend_from_slice(&0u32.to_le_bytes());
@@ -138,6 +140,8 @@ fn kind_s(e: &RepeError) -> String {
         RepeError::Io(io) => match io.kind() { K::ConnectionRefused => "refused", K::ConnectionReset => "reset", K::ConnectionAborted => "aborted", K::NotConnected => "notconn", K::UnexpectedEof => "eof", K::TimedOut => "timedout", K::BrokenPipe => "brokenpipe", K::WouldBlock => "wouldblock", K::Interrupted => "interrupted", k => return format!("io-{k:?}") }.to_string(),
         RepeError::InvalidSpec(_) => "invalidspec".into(),
         RepeError::ServerError { .. } => "servererror".into(),
+        // a success frame whose JSON body does not parse is a reply (the node answered): same class
+        RepeError::Json(_) => "servererror".into(),
         other => format!("other-{}", format!("{other:?}").split(|c: char| !c.is_alphanumeric()).next().unwrap_or("x")),
     }
 }
@@ -147,12 +151,14 @@ const TIMEOUT: Duration = Duration::from_millis(250);
 fn run_scenario(kind: &str, max: usize, script: &str, nfollow: usize) -> String {
     let node = Node::start();
     let cfg = NodeConfig::new("127.0.0.1", node.port).unwrap().with_name("n0").unwrap().with_timeout(TIMEOUT).unwrap();
-    let opts = FleetOptions { default_timeout: TIMEOUT, retry_policy: RetryPolicy { max_attempts: max, delay: Duration::from_millis(1) } };
+    // the back-off delay is 0 for every other script (the attempt bound does not depend on it)
+    let opts = FleetOptions { default_timeout: TIMEOUT, retry_policy: RetryPolicy { max_attempts: max, delay: if script.len() % 2 == 0 { Duration::ZERO } else { Duration::from_millis(1) } } };
     let sc = Scenario { node: node.clone(), script: script.chars().map(parse_b).collect(), attempts: 0 };
     CUR.with(|c| *c.borrow_mut() = Some(sc));
     let take_attempts = || CUR.with(|c| { let mut b = c.borrow_mut(); let s = b.as_mut().unwrap(); let a = s.attempts; s.attempts = 0; a });
     let mut out = String::new();
-    let res_s = |v: bool, e: Option<&RepeError>| if v { "value".to_string() } else { e.map(kind_s).unwrap_or_else(|| "noerror".into()) };
+    // a result carries a value or an error, never both (`failed()` looks at the error)
+    let res_s = |v: bool, e: Option<&RepeError>| if v { if e.is_some() { "value+error".to_string() } else { "value".to_string() } } else { e.map(kind_s).unwrap_or_else(|| "noerror".into()) };
     if kind == "blocking" {
         let fleet = Fleet::with_options(vec![cfg], opts).unwrap();
         let r = fleet.call_json("n0", "/x", Some(&serde_json::json!(1))).unwrap();
@@ -186,12 +192,16 @@ fn run_scenario(kind: &str, max: usize, script: &str, nfollow: usize) -> String 
 
 /// broadcast to the nodes carrying all requested tags: exactly those nodes are
 /// addressed (request counters of the fake nodes) and exactly one result each
-fn run_tags(kind: &str, node_tags: &[u64], want: u64, dup: bool) -> String {
+fn run_tags(kind: &str, node_tags: &[u64], want: u64, dup: bool, slow: Option<usize>) -> String {
     let names = ["a", "b", "c"];
     let tag_list = |m: u64| -> Vec<String> { (0..3).filter(|i| m >> i & 1 == 1).map(|i| names[i as usize].to_string()).collect() };
     let nodes: Vec<Arc<Node>> = node_tags.iter().map(|_| Node::start()).collect();
-    let cfgs: Vec<NodeConfig> = nodes.iter().enumerate().map(|(i, n)| NodeConfig::new("127.0.0.1", n.port).unwrap().with_name(format!("n{i}")).unwrap().with_tags(tag_list(node_tags[i])).with_timeout(Duration::from_secs(2)).unwrap()).collect();
-    let opts = FleetOptions { default_timeout: Duration::from_secs(2), retry_policy: RetryPolicy { max_attempts: 1, delay: Duration::from_millis(1) } };
+    // slow=<i>: node i reads the request and never answers; its own timeout (400 ms) is longer than
+    // the fleet's default timeout (300 ms): it still gets its (error) entry in the result
+    if let Some(i) = slow { if let Some(n) = nodes.get(i) { *n.mode.lock().unwrap() = B::Silent; } }
+    let (nt, dt) = if slow.is_some() { (Duration::from_millis(400), Duration::from_millis(300)) } else { (Duration::from_secs(2), Duration::from_secs(2)) };
+    let cfgs: Vec<NodeConfig> = nodes.iter().enumerate().map(|(i, n)| NodeConfig::new("127.0.0.1", n.port).unwrap().with_name(format!("n{i}")).unwrap().with_tags(tag_list(node_tags[i])).with_timeout(nt).unwrap()).collect();
+    let opts = FleetOptions { default_timeout: dt, retry_policy: RetryPolicy { max_attempts: 1, delay: Duration::from_millis(1) } };
     // dup: the caller names every requested tag twice (a tag list is a set: same nodes addressed)
     let mut want_tags = tag_list(want);
     if dup { let mut again = want_tags.clone(); again.reverse(); want_tags.extend(again); }
@@ -215,7 +225,8 @@ fn run_case(line: &str) -> String {
         let nt: Vec<u64> = f["tags"].split('.').map(|s| s.parse().unwrap()).collect();
         let want: u64 = f["want"].parse().unwrap();
         let dup = f.get("dup").map(|d| d == "1").unwrap_or(false);
-        return guard(move || run_tags(&kind, &nt, want, dup)).unwrap_or_else(|_| "crash=panic".into());
+        let slow = f.get("slow").and_then(|s| s.parse::<usize>().ok());
+        return guard(move || run_tags(&kind, &nt, want, dup, slow)).unwrap_or_else(|_| "crash=panic".into());
     }
     let max: usize = f["max"].parse().unwrap();
     let script = if f["script"] == "-" { String::new() } else { f["script"].clone() };
@@ -240,6 +251,13 @@ fn gen_cases(_seed: u64, thorough: bool) -> Vec<String> {
                 }
             }
         }
+        // a success frame with an incomplete JSON body is a reply: no retry, the error is reported
+        for max in 1..=3usize {
+            // (the J reply is the last scripted behaviour and is met by the first call, which decodes JSON)
+            for script in ["J", "AJ", "RJ", "AAJ", "RAJ"] {
+                if script.len() <= max { cases.push(format!("kind={kind} max={max} script={script} nfollow=3")); }
+            }
+        }
         // all tag subsets over up to 3 nodes x 3 tags (quick: sampled)
         for n in 1..=3usize {
             let total = 8usize.pow(n as u32);
@@ -250,6 +268,7 @@ fn gen_cases(_seed: u64, thorough: bool) -> Vec<String> {
                     if !thorough && want % 3 == 1 { continue; }
                     cases.push(format!("kind={kind} tags={} want={want}", tags.join(".")));
                     if want != 0 && (thorough || (idx + want) % 4 == 0) { cases.push(format!("kind={kind} tags={} want={want} dup=1", tags.join("."))); }
+                    if n >= 2 && (idx + want) % (if thorough { 16 } else { 64 }) == 3 { cases.push(format!("kind={kind} tags={} want={want} slow={}", tags.join("."), idx % n)); }
                 }
             }
         }
